@@ -111,6 +111,7 @@ static void *procfunc(struct cmb_process *self, void *vctx)
         else if (!strcmp(o, "waitp")) { if (a1 < 0 || a1 >= nproc) SKIP(); else RET(cmb_process_wait_process(&procs[a1])); }
         else if (!strcmp(o, "usched")) { VAR(a1) = cmb_event_schedule(user_action, NULL, NULL, cmb_time() + (double)a2, a3); RETX(0, "h=%" PRIu64, VAR(a1)); }
         else if (!strcmp(o, "ucancel")) { if (VAR(a1) == 0u) SKIP(); else RET(cmb_event_cancel(VAR(a1)) ? 1 : 0); }
+        else if (!strcmp(o, "upcancel")) { RET(cmb_event_pattern_cancel(user_action, CMB_ANY_SUBJECT, CMB_ANY_OBJECT)); }
         else if (!strcmp(o, "waite")) { if (VAR(a1) == 0u || !cmb_event_is_scheduled(VAR(a1))) SKIP(); else RET(cmb_process_wait_event(VAR(a1))); }
         else if (!strcmp(o, "acq")) { if (a1 >= nres) SKIP(); else RET(cmb_resource_acquire(res[a1])); }
         else if (!strcmp(o, "pre")) { if (a1 >= nres || cmb_resource_held_by_process(res[a1], self)) SKIP(); else RET(cmb_resource_preempt(res[a1])); }
